@@ -139,7 +139,8 @@ def mutations(draw, spec, lay, rendered, max_ops=4, min_ops=0,
                 # look-alike of it
                 p = draw(st.sampled_from([ig + '/inside', ig + 'bar',
                                           ig + '.d', ig[:-1] or 'q']))
-                if p not in taken and '//' not in p:
+                if p not in taken and '//' not in p \
+                        and os.path.basename(p) not in ('', '.', '..'):
                     parent_ok = all(
                         os.path.dirname(p) != t['p'] or t['t'] == 'd'
                         for t in nodes)
